@@ -321,6 +321,13 @@ def check_gate(ctx, gate):
                 def reg_falsy(c):
                     e = t.expand(c.expr)
                     if isinstance(e, ast.Compare) and len(e.ops) == 1 and \
+                            isinstance(e.ops[0], ast.In) and U(
+                                e.left) == 'rule' and U(
+                                    e.comparators[0]) in (
+                                        'self.registered_rules',
+                                        'self.registered_rules.keys()'):
+                        return not c.pol        # no registered default
+                    if isinstance(e, ast.Compare) and len(e.ops) == 1 and \
                             isinstance(e.ops[0], ast.Is) and is_const(
                                 e.comparators[0], None):
                         return c.pol and _registered_lookup(e.left)
@@ -493,9 +500,13 @@ def check_creds(ctx):
            'a *mutable* mapping although enforce writes creds[\'system\']: '
            'other objects fail later with an undocumented exception')
     # RequestContext is mapped, mappings are used as they are
-    mapped = [p for p in t.paths if any(
-        c.kind == 'test' and c.pol and 'RequestContext' in U(c.expr)
-        for c in p.conds)]
+    def is_ctx_test(c):
+        e = c.expr
+        return c.kind == 'test' and c.pol and isinstance(e, ast.Call) and \
+            U(e.func) == 'isinstance' and len(e.args) == 2 and not \
+            isinstance(e.args[1], ast.Tuple) and 'RequestContext' in U(
+                e.args[1])
+    mapped = [p for p in t.paths if any(is_ctx_test(c) for c in p.conds)]
     okm = bool(mapped) and all(any(
         e.kind == 'call' and prog.callee_of(
             prog.functions.get(e.frame, enf), e.node) is mapper
